@@ -1,0 +1,9 @@
+//go:build verif
+
+package memview
+
+import "mltwist/internal/consoleui"
+
+// VerifSe2eRows returns the number of rows of the memory view of a mode created
+// by New (verification harness only, build tag verif).
+func VerifSe2eRows(m consoleui.Mode) int { return len(m.(*mode).view.lines) }
